@@ -36,6 +36,31 @@ def units_for(dirs):
                 sel.setdefault(pid, []).append(u)
     return sel
 
+BASE = {}
+
+def run_units(pid, units):
+    tmp = tempfile.mkdtemp(prefix='seedroot.')
+    os.makedirs(f'{tmp}/props')
+    os.symlink(f'{ROOT}/contracts', f'{tmp}/contracts')
+    if os.path.exists(f'{ROOT}/known_findings.jsonl'):
+        shutil.copy(f'{ROOT}/known_findings.jsonl', f'{tmp}/known_findings.jsonl')
+    json.dump({'id': pid, 'units': units, 'assumptions': [], 'residual': ''}, open(f'{tmp}/props/{pid}.json', 'w'))
+    env = dict(os.environ, GOVC_NOREPLAY=os.environ.get('GOVC_NOREPLAY', '1'))
+    p = subprocess.run([f'{ROOT}/bin/govc', 'check', '-property', pid, '-root', tmp, '-repo', REPO], capture_output=True, text=True, env=env)
+    shutil.rmtree(tmp, ignore_errors=True)
+    viol = [re.sub(r'replay=\S+ ', '', l) for l in p.stdout.splitlines() if l.startswith('VIOLATION')]
+    names = set()
+    for v in viol:
+        m = re.search(r'obligation=(\S+)', v)
+        names.add(m.group(1) if m else v)
+    return p.returncode, viol, names, (p.stdout.strip().splitlines()[-1] if p.stdout.strip() else '')
+
+def baseline(pid, units):
+    key = pid + json.dumps(units, sort_keys=True)
+    if key not in BASE:
+        BASE[key] = run_units(pid, units)[2]
+    return BASE[key]
+
 def run(seed):
     sdir = f'{ROOT}/seeded/{seed}'
     patch = f'{sdir}/patch.diff'
@@ -50,28 +75,20 @@ def run(seed):
     if subprocess.run(['git', '-C', REPO, 'apply', '--check', patch], capture_output=True).returncode != 0:
         res['error'] = 'patch does not apply'
         return res
+    order = sorted(sel.keys(), key=lambda p: (p != own, p))
+    base = {pid: baseline(pid, sel[pid]) for pid in order}   # violations already present on the unchanged tree
     subprocess.run(['git', '-C', REPO, 'apply', patch], check=True)
     try:
-        order = sorted(sel.keys(), key=lambda p: (p != own, p))
         for pid in order:
-            tmp = tempfile.mkdtemp(prefix='seedroot.')
-            os.makedirs(f'{tmp}/props')
-            os.symlink(f'{ROOT}/contracts', f'{tmp}/contracts')
-            if os.path.exists(f'{ROOT}/known_findings.jsonl'):
-                shutil.copy(f'{ROOT}/known_findings.jsonl', f'{tmp}/known_findings.jsonl')
-            json.dump({'id': pid, 'units': sel[pid], 'assumptions': [], 'residual': ''}, open(f'{tmp}/props/{pid}.json', 'w'))
-            env = dict(os.environ, GOVC_NOREPLAY=os.environ.get('GOVC_NOREPLAY', '1'))
-            p = subprocess.run([f'{ROOT}/bin/govc', 'check', '-property', pid, '-root', tmp, '-repo', REPO], capture_output=True, text=True, env=env)
-            viol = [l for l in p.stdout.splitlines() if l.startswith('VIOLATION')]
-            res['checks'][pid] = {'exit': p.returncode, 'violations': len(viol),
-                                  'first': [re.sub(r'replay=\S+ ', '', v)[:300] for v in viol[:3]],
-                                  'summary': p.stdout.strip().splitlines()[-1] if p.stdout.strip() else ''}
-            shutil.rmtree(tmp, ignore_errors=True)
-            if p.returncode == 1 and viol and pid == own:
+            rc, viol, names, summary = run_units(pid, sel[pid])
+            new = sorted(n for n in names if n not in base[pid])
+            res['checks'][pid] = {'exit': rc, 'violations': len(viol), 'new': new[:5], 'baseline': len(base[pid]),
+                                  'first': [v[:300] for v in viol if any(n in v for n in new)][:3], 'summary': summary}
+            if new and pid == own:
                 break  # detected under its own property
     finally:
         subprocess.run(['git', '-C', REPO, 'apply', '-R', patch], check=True)
-    det = [p for p, c in res['checks'].items() if c['exit'] == 1 and c['violations'] > 0]
+    det = [p for p, c in res['checks'].items() if c['new']]
     res['detected_by'] = det
     return res
 
